@@ -243,11 +243,11 @@ def run(run):
         # C07_runners_shape no longer holds (props/C07.v failed to build -> reported by proof_leg as a broken
         # obligation).  The search for a concrete failing schedule is the smoke family + the lock-step run above.
         run.notes.append("runner shape facts changed: %s; smoke family found %d failing scenario(s)" % ("; ".join(facts), bad_runner))
-        if not proof_ok:
-            pass  # proof_leg already registered proof-broken:props/C07.v (no-failing-input-found)
-        else:
-            run.violation("runner-shape:" + ",".join(f.split()[1] for f in facts if "=false" in f), {"facts": facts},
-                          "a bundled runner no longer has the Started/defer done/StopCh/Stop shape the skeleton models", True)
+        run.violation("runner-shape:" + ",".join(f.split()[1] for f in facts if "=false" in f),
+                      {"facts": facts, "theorem": "C07_runners_shape (all_ok RunnerShape.shapes = true); C07_runners_* rest on it",
+                       "smoke_failures": bad_runner},
+                      "a bundled runner no longer has the Started / defer done / StopCh-in-select / Stop = lc.Stop shape that the "
+                      "runner skeleton models: " + "; ".join(f for f in facts if "=false" in f), True)
     st = acc.stats
     samples = []
     rc, out, err = raw(["-mode", "random", "-k", "3", "-m", "3", "-n", "4", "-seed", str(run.seed)])
